@@ -147,11 +147,13 @@ def make_cases(rng, tier):
             news = [("un", o) for o in op_menu(ccols, fresh_n if fresh_n not in ccols else N(8), more_tags=[c for c in cols if c not in ccols])]
             # joins: fixed operands sharing a key column, with and without an extra / shared non-key column
             # (fixed on either side; [K1, K2] shares a KEY column that a projection of the target may hide)
-            for fcols in ([K(1)], [K(1), K(3)], [K(1), N(1)], [K(1), N(7)], [K(3)], [K(1), K(2)]):
+            for fcols in ([K(1)], [K(1), K(3)], [K(1), N(1)], [K(1), N(7)], [K(3)], [K(1), K(2)], []):
                 frows = consistent_rows(fcols, [(0,) * len([c for c in fcols if c.is_key]), (1,) * len([c for c in fcols if c.is_key])])
+                if not fcols:
+                    frows = [{}]            # one row, no columns: the join identity
                 for is_lhs in (False, True):
                     news.append(("join", fcols, frows, None, is_lhs))
-                    if K(1) in fcols and K(1) in ccols:
+                    if (K(1) in fcols or not fcols) and K(1) in ccols:
                         news.append(("join", fcols, frows, ("cmp", "ge", ("ref", K(1)), ("lit", 1)), is_lhs))
             for new in news:
                 env = []
